@@ -124,8 +124,15 @@ def run(ctx):
                 # (from_samples is the class-changing constructor: class-specific scalars are passed to it explicitly, by design)
                 for sf in (() if op == "from_samples" else ("log_evidence", "log_evidence_error") if op == "to_standard_samples" else ("log_evidence", "log_evidence_error", "beta")):
                     v0, v1 = getattr(s, sf, None), getattr(t, sf, None)
-                    if v0 is not None and (v1 is None or abs(nsutil.to_float(v1) - nsutil.to_float(v0)) > 1e-5 * (1 + abs(nsutil.to_float(v0)))):
-                        ctx.violation(f"{op}:scalar:{sf}:{cname}", f"{cname}.{op} {a}->{b}: {sf} was {v0}, is {v1}", case)
+                    if v0 is None:
+                        continue
+                    try:
+                        a1 = None if v1 is None else np.asarray(nsutil.to_list(v1), float)
+                        bad_scalar = a1 is None or a1.ndim != 0 or abs(float(a1) - nsutil.to_float(v0)) > 1e-5 * (1 + abs(nsutil.to_float(v0)))
+                    except Exception:
+                        bad_scalar = True
+                    if bad_scalar:
+                        ctx.violation(f"{op}:scalar:{sf}:{cname}", f"{cname}.{op} {a}->{b}: {sf} was {v0!r}, is {v1!r}", case)
                         break
                 if not nsutil.NS_OF(t) == (b if op not in ("to_standard_samples",) else a):
                     ctx.violation(f"{op}:namespace:{cname}", f"{cname}.{op}: result lives in {nsutil.NS_OF(t)}, requested {b}", case)
